@@ -362,7 +362,9 @@ LEVEL_TEXT = ("Kernel-checked on M-base for arbitrary make_safe_absolute_uri / _
               "pop_undoes_push, inv_of_absolute_root, sibling_sees_enclosing, effective_base, unsafe_xmlbase_ignored, no_xmlbase_keeps_base, effective_lang; "
               "empty_docbase_leak_counterexample shows why the property's 'absolute base' hypothesis is needed. On M-mixin (stage 4, handlers hand-modelled and guarded by source "
               "fingerprints): handler_sees_inner_base (the state a start handler runs in carries exactly M-base's state after this start tag), link_href_resolved / link_href_is_join "
-              "(whatever of url / uri / href a link element carries, the stored href is _urljoin(current base, that value)); Props/C02 guid_not_permalink_verbatim (a guid with "
+              "(whatever of url / uri / href a link element carries, the stored href is _urljoin(current base, that value)); base_submachine (for EVERY event sequence in the model's "
+              "domain the base URI and base stack of the handler machine are M-base run on the tag events alone) and end_handler_sees_own_base (after any balanced children the END "
+              "handler -- where pop() resolves the element-level URI and embedded markup -- runs with the base the START handler saw), via balanced_restores_base; Props/C02 guid_not_permalink_verbatim (a guid with "
               "isPermaLink=false is NOT joined). Tie: the model is stepped on the event "
               "stream of the real strict and loose parsers (recorded by subclassing) and must reproduce baseuri, lang and stack depths after every tag.")
 LEVEL_NOTE = ("Trusted: Lean kernel + standard axioms; event recording by subclassing (tools/trace.py); the field clauses (which fields are resolved against "
